@@ -90,7 +90,7 @@ def f(x, n, b, xs):
 
 
 def run(tier):
-  R = common.Run('C16', tier, 'exploration', ENCODED)
+  R = common.Run('C16', tier, 'model_checking', ENCODED)
   from vf.harness import c16
   pct = 60.0 if tier == 'quick' else 300.0
   twin = pool.run_tasks([('vf.unit', 'work', {'module': 'vf.harness.c16', 'func': 'reach_twin',
@@ -102,16 +102,14 @@ def run(tier):
   progs = [gen.Prog(n, s, {'ctx'}) for n, s in PROGS]
   e1run.run_family(R, progs, [M_TG, M_CV], {'n': 3, 'len': 2}, pct, 10.0, None,
                    title='conversion status differs after/inside converted code')
-  try:
-    from vf import bmc_ctx
-    bm = bmc_ctx.run(R, tier)
-  except ImportError:
-    bm = {'summary': 'E3 thread model not built yet', 'assumptions': []}
+  from vf import bmc_ctx
+  bm = bmc_ctx.run(R, tier)
   cov = {
-      'evaluations': len(c16.HARNESSES) + 2 * len(progs),
-      'distinct_nontrivial': R.counts['confirmed'],
-      'rule': 'one obligation per wrapper kind (symbolic pre-stack/status/raise bits) and per converted program x API; '
-              'non-trivial = conclusive solver verdict',
+      'states': max(1, bm['states']),
+      'transitions': max(1, bm['transitions']),
+      'traces_validated_against_impl': bm['traces_validated'],
+      'states_note': 'states/transitions counted by an explicit concrete exploration of the SAME extracted transition '
+                     'system (cross-check); the deciding step is the z3 BMC over all schedules',
       'bmc': bm['summary'],
       'unit_harnesses': c16.HARNESSES,
       'unit_bound': 'pre-stack depth 1..4, statuses arbitrary, body returns|raises, body nests a balanced wrapper or not',
